@@ -927,10 +927,10 @@ def history_section(ctx, n=None):
                 try:
                     # (k % 4 == 3 drops the first d-table; the shared generator forgets it: at most 7 commits)
                     # every third of these establishes schema, schema format and encoding inside the WAL
-                    if i % 6 == 2:
+                    if i % 6 == 2 or i % 12 == 4:
                         cfg["page_size"] = 512       # many schema rows on small pages: interior root, several leaves
                     h = H.make_history(sc.path(f"h{i}"), cfg, r, n_commits=r.randint(3, 7),
-                                       kind="fresh_wal" if i % 6 == 0 else ("wide_schema" if i % 6 == 2 else "ddl"))
+                                       kind="fresh_wal" if i % 6 == 0 else ("wide_schema" if i % 6 == 2 else ("schema_overflow" if i % 12 == 4 else "ddl")))
                 except sqlite3.Error as e:
                     ctx.notes.append(f"history generator error skipped: {e}")
                     continue
@@ -970,8 +970,48 @@ def fixed_history(ctx):
         sc.close()
 
 
+# names SQLite keeps apart although a Unicode-aware case fold identifies them (SQLite folds A-Z only), names that differ
+# from another object's name in ASCII case only where SQLite allows it (a trigger / an index column), one schema per list
+NAME_SCHEMAS = [
+    ['CREATE TABLE "Ärzte" (a INTEGER, b TEXT)', 'CREATE TABLE "ärzte" (c, d)', 'CREATE INDEX "Ärzte_i" ON "Ärzte" (a)',
+     'CREATE INDEX "ärzte_i" ON "ärzte" (c)'],
+    ['CREATE TABLE "Übersicht" (a)', 'CREATE VIEW "übersicht" AS SELECT a FROM "Übersicht"',
+     'CREATE TRIGGER "ÜBERSICHT" AFTER INSERT ON "Übersicht" BEGIN SELECT 1; END'],
+    ['CREATE TABLE "ǅ" (a)', 'CREATE TABLE "ǆ" (a)', 'CREATE TABLE "Ǆ" (a)', 'CREATE TABLE "ß" (a)', 'CREATE TABLE "ẞ" (a)',
+     'CREATE TABLE "İ" (a)', 'CREATE TABLE "i̇" (a)'],
+]
+
+
+def name_section(ctx):
+    sc = C.Scratch()
+    try:
+        for i, stmts in enumerate(NAME_SCHEMAS):
+            for enc in F.ENCODINGS:
+                path = sc.path(f"names{i}_{enc}.db")
+                con = sqlite3.connect(path, isolation_level=None)
+                con.execute(f"PRAGMA encoding='{enc}'")
+                for st in stmts:
+                    con.execute(st)
+                con.close()
+                case = {"ddl": stmts, "encoding": enc, "tags": ["names:non-ascii-case"]}
+                oracle = schema_oracle(path)
+                n0 = len(ctx.oracle_failures)
+                ctx.evals += 1
+                impl, db, exc = C.compare_db_dump(ctx, path, "db.open", with_trees=False)
+                ctx.branch("names:non-ascii-case")
+                if db is None:
+                    ctx.oracle_fail("db-rejected", f"a database written by SQLite is rejected because of a schema row ({impl})",
+                                    case, impl, "accepted")
+                    C.keep_failing_files(ctx, n0, path)
+                    continue
+                compare_entries(ctx, db.master_schema.master_schema_entries, oracle, case)
+    finally:
+        sc.close()
+
+
 # ====================================================================== entry points
 def run(ctx):
+    name_section(ctx)
     check_constants(ctx)
     scalar_ops(ctx)
     affinity_section(ctx)
